@@ -47,7 +47,10 @@ Definition is_cl (f : field) : Prop := fname f = bs "content-length".
 (** Per-field rules of a header section of the given kind. *)
 Definition field_wf (isReq : bool) (f : field) : Prop :=
   no_uppercase (fname f) /\ rfc_value (fvalue f) /\
-  (pseudo f -> In (fname f) (allowed_pseudo isReq)) /\
+  (* RFC 9114 4.3.1 "... or contains invalid values for those pseudo-header fields is malformed":
+     no pseudo-header field has a valid empty value (:method, :scheme, :protocol, :status are tokens or
+     numbers; :authority "MUST NOT be empty" if present; :path "MUST NOT be empty for http or https URIs") *)
+  (pseudo f -> In (fname f) (allowed_pseudo isReq) /\ fvalue f <> []) /\
   (~ pseudo f -> rfc_token (fname f) /\ ~ In (fname f) connection_specific /\
                  (fname f = bs "te" -> fvalue f = bs "trailers")).
 
@@ -143,11 +146,12 @@ Definition request_rules (fs : list field) : Prop :=
     last_value (bs ":scheme") fs <> [] /\ last_value (bs ":path") fs <> []
     (* (:authority or Host is required only for schemes with a mandatory authority) *).
 
-(** What requestFromHeaders enforces: by EMPTINESS of the parsed values; :scheme is only
-    looked at for extended CONNECT; :authority is always demanded. *)
+(** What requestFromHeaders enforces, on the parsed values (empty = absent, since empty
+    pseudo-header values are malformed): everything but the presence of :scheme on a
+    non-CONNECT request; :authority is always demanded. *)
 Definition request_rules_x (fs : list field) : Prop :=
   let v n := last_value (bs n) fs in
   if beq (v ":method"%string) (bs "CONNECT") then
-    if is_empty (v ":protocol"%string) then v ":path"%string = [] /\ v ":authority"%string <> []
+    if is_empty (v ":protocol"%string) then v ":path"%string = [] /\ v ":authority"%string <> [] /\ v ":scheme"%string = []
     else v ":scheme"%string <> [] /\ v ":path"%string <> [] /\ v ":authority"%string <> []
   else v ":path"%string <> [] /\ v ":authority"%string <> [] /\ v ":method"%string <> [] /\ v ":protocol"%string = [].
